@@ -87,3 +87,196 @@ class ClientModel(object):
     if self.is_factory_expr(f.value, fn.module, fn):
       return True
     return False
+
+
+class BatchShape(object):
+  """How CarbonClientFactory.takeSomeFromQueue builds the batch it returns, read off the (normalised) code whatever idiom it
+  uses: a nested generator drained by list(), a list grown by append in a for / while loop, or a comprehension.
+
+    productions   the expressions whose values become the elements of the returned list, in order
+    problems      [(node, text)]: why the batch is not "exactly the items popped from the head of self.queue, in pop order"
+    bound         None when at most settings.MAX_DATAPOINTS_PER_MESSAGE items are taken per call, else (node, text)
+    quiet_empty   how an empty queue ends the batch without an error ('IndexError handler' / 'len(queue) bound' /
+                  'queue tested'), or None
+    loop          the loop / comprehension that produces the elements
+  """
+
+  LIMIT = ('attr', ('param', 'settings'), 'MAX_DATAPOINTS_PER_MESSAGE')
+
+  def __init__(self, cx, tq):
+    from .rulelib import ValueNumbers
+    self.cx, self.tq = cx, tq
+    self.vn = ValueNumbers(cx, tq)
+    self.problems = []
+    self.bound = (tq.node, 'the loop that fills the batch was not found')
+    self.quiet_empty = None
+    self.loop = None
+    self.productions = []
+    self.region = tq
+    self.SELF = ('param', tq.params[0]) if tq.params else ('param', 'self')
+    self.Q = ('attr', self.SELF, 'queue')
+    self._analyse()
+
+  # terms of expressions inside a nested generator see the enclosing function's single-assignment locals
+  def term(self, e, at):
+    from .rulelib import ValueNumbers
+    if self.region is self.tq:
+      return self.vn.term(e, at)
+    t = ValueNumbers(self.cx, self.region).term(e, at)
+    return self._outer(t)
+
+  def _outer(self, t):
+    if not isinstance(t, tuple):
+      return t
+    if t[0] == 'param' and isinstance(t[1], str) and t[1] not in self.region.params:
+      defs = [s for s in walk_no_nested(self.tq.node, include_self=False) if isinstance(s, ast.Assign) and
+              any(isinstance(x, ast.Name) and x.id == t[1] for x in s.targets)]
+      if len(defs) == 1:
+        return self.vn.term(defs[0].value, defs[0])
+      return t
+    return tuple(self._outer(x) for x in t)
+
+  def _analyse(self):
+    tq = self.tq
+    rets = [r for r in walk_no_nested(tq.node, include_self=False) if isinstance(r, ast.Return)]
+    if len(rets) != 1 or rets[0].value is None:
+      self.problems.append((tq.node, 'takeSomeFromQueue does not have a single `return <batch>`'))
+      return
+    ret = rets[0]
+    v = ret.value
+    # resolve `return batch` to the expression batch was built by, when that is one expression
+    if isinstance(v, ast.Name):
+      defs = [s for s in walk_no_nested(tq.node, include_self=False) if isinstance(s, ast.Assign) and
+              any(isinstance(x, ast.Name) and x.id == v.id for x in s.targets)]
+      if len(defs) == 1 and isinstance(defs[0].value, (ast.ListComp, ast.Call)) and not (
+          isinstance(defs[0].value, ast.Call) and isinstance(defs[0].value.func, ast.Name) and defs[0].value.func.id == 'list' and
+          not defs[0].value.args):
+        grown = [c for c in ast.walk(tq.node) if isinstance(c, ast.Call) and isinstance(c.func, ast.Attribute) and
+                 dotted(c.func.value) == v.id and c.func.attr in ('append', 'extend', 'insert', 'pop', 'remove', 'sort', 'reverse', 'clear')]
+        if not grown:
+          v = defs[0].value
+    body_loops = None
+    if isinstance(v, ast.Call) and isinstance(v.func, ast.Name) and v.func.id == 'list' and len(v.args) == 1 and \
+       isinstance(v.args[0], ast.Call) and isinstance(v.args[0].func, ast.Name) and not v.args[0].args:
+      gen = next((f for f in tq.module.all_functions() if f.parent_fn is tq and f.name == v.args[0].func.id), None)
+      if gen is None:
+        self.problems.append((ret, 'the batch is list(%s()), which is not a generator defined in takeSomeFromQueue' % v.args[0].func.id))
+        return
+      self.region = gen
+      self.productions = [(y.value, y) for y in walk_no_nested(gen.node, include_self=False) if isinstance(y, ast.Yield)]
+      scope = gen.node
+    elif isinstance(v, ast.ListComp):
+      if len(v.generators) != 1 or v.generators[0].ifs:
+        self.problems.append((v, 'the batch is a filtered / nested comprehension'))
+        return
+      self.productions = [(v.elt, v)]
+      self.loop = v
+      scope = tq.node
+    elif isinstance(v, ast.Name):
+      apps = [c for c in ast.walk(tq.node) if isinstance(c, ast.Call) and isinstance(c.func, ast.Attribute) and dotted(c.func.value) == v.id]
+      for c in apps:
+        if c.func.attr != 'append' or len(c.args) != 1:
+          self.problems.append((c, '`%s` changes the batch other than by appending one popped item' % unparse(c)[:60]))
+      self.productions = [(c.args[0], c) for c in apps if c.func.attr == 'append' and len(c.args) == 1]
+      scope = tq.node
+    else:
+      self.problems.append((ret, 'the returned batch `%s` is not built in a recognised way' % unparse(v)[:60]))
+      return
+    if not self.productions:
+      self.problems.append((ret, 'nothing is put into the returned batch'))
+      return
+    self.scope = scope
+    # ---- every production is one popleft() of self.queue, and every popleft() is produced
+    pops = [c for c in ast.walk(scope) if isinstance(c, ast.Call) and isinstance(c.func, ast.Attribute) and
+            c.func.attr in ('popleft', 'pop', 'popitem') and self.term(c.func.value, c) == self.Q]
+    used = []
+    for e, site in self.productions:
+      src = e
+      if isinstance(e, ast.Name):
+        defs = [s for s in ast.walk(scope) if isinstance(s, ast.Assign) and any(isinstance(x, ast.Name) and x.id == e.id for x in s.targets)]
+        src = defs[0].value if len(defs) == 1 else None
+      if isinstance(src, ast.Call) and any(src is p for p in pops) and src.func.attr == 'popleft' and not src.args:
+        used.append(src)
+      else:
+        self.problems.append((site, '`%s` puts something else than one item popped from the head of the queue into the batch'
+                              % unparse(site)[:70]))
+    for p in pops:
+      if not any(p is u for u in used):
+        self.problems.append((p, '`%s` takes an item from the queue that does not go into the batch (or not from the head)' % unparse(p)[:50]))
+    if len(used) != len(set(id(u) for u in used)):
+      self.problems.append((self.productions[0][1], 'one popped item is put into the batch more than once'))
+    # ---- one loop, no skipping
+    if self.loop is None:
+      loops = []
+      for e, site in self.productions:
+        p = getattr(site, '_parent', None)
+        chain = []
+        while p is not None and p is not scope:
+          if isinstance(p, (ast.For, ast.While)):
+            chain.append(p)
+          p = getattr(p, '_parent', None)
+        loops.append(chain)
+      if not all(len(ch) == 1 for ch in loops) or len({id(ch[0]) for ch in loops}) != 1:
+        self.problems.append((self.productions[0][1], 'the batch is not filled by a single loop'))
+        return
+      self.loop = loops[0][0]
+      if any(isinstance(x, ast.Continue) for x in ast.walk(self.loop)):
+        self.problems.append((self.loop, 'the loop can skip (`continue`) after taking an item'))
+      # between the pop and the production nothing may drop the item: the production is not under a condition
+      for e, site in self.productions:
+        p = getattr(site, '_parent', None)
+        while p is not None and p is not self.loop:
+          if isinstance(p, ast.If):
+            self.problems.append((p, 'a popped item reaches the batch only when `%s`' % unparse(p.test)[:50]))
+          p = getattr(p, '_parent', None)
+    # ---- the bound
+    self._bound()
+
+  def _limit_term(self, t, allow_len=True):
+    """'limit' if t is MAX_DATAPOINTS_PER_MESSAGE, 'limit+len' for min(MAX, len(queue)) in either order, else None"""
+    if t == self.LIMIT:
+      return 'limit'
+    if isinstance(t, tuple) and t[0] == 'call' and t[1] == 'min' and len(t) == 4:
+      a, b = t[2], t[3]
+      LEN = ('call', 'len', self.Q)
+      if (a == self.LIMIT and b == LEN) or (b == self.LIMIT and a == LEN):
+        return 'limit+len'
+    return None
+
+  def _bound(self):
+    lp = self.loop
+    self.bound = (lp, 'takeSomeFromQueue does not take at most settings.MAX_DATAPOINTS_PER_MESSAGE items per call')
+    it = None
+    if isinstance(lp, ast.ListComp):
+      it = lp.generators[0].iter
+    elif isinstance(lp, ast.For) and not lp.orelse:
+      it = lp.iter
+    if it is not None:
+      if isinstance(it, ast.Call) and isinstance(it.func, ast.Name) and it.func.id in ('range', 'xrange') and len(it.args) == 1 and not it.keywords:
+        kind = self._limit_term(self.term(it.args[0], lp if not isinstance(lp, ast.ListComp) else self._stmt_of(lp)))
+        if kind:
+          self.bound = None
+          if kind == 'limit+len':
+            self.quiet_empty = 'len(queue) bound'
+    elif isinstance(lp, ast.While):
+      from .props.c15 import _bounded_while
+      if _bounded_while(self.cx, self.region, [lp]):
+        self.bound = None
+      conj = lp.test.values if isinstance(lp.test, ast.BoolOp) and isinstance(lp.test.op, ast.And) else [lp.test]
+      for t in conj:
+        tt = self.term(t, lp)
+        if tt == self.Q or tt == ('cmp', 'Gt', ('call', 'len', self.Q), ('const', 0)) or tt == ('call', 'len', self.Q):
+          self.quiet_empty = 'queue tested'
+    # an empty queue: popleft() raises IndexError, which ends the batch quietly
+    if self.quiet_empty is None:
+      for h in [h for h in ast.walk(self.scope) if isinstance(h, ast.ExceptHandler)]:
+        names = unparse(h.type) if h.type is not None else ''
+        if 'IndexError' in names and h.body and isinstance(h.body[-1], (ast.Return, ast.Break)) and \
+           not any(isinstance(x, (ast.Yield,)) for x in ast.walk(h)):
+          self.quiet_empty = 'IndexError handler'
+
+  def _stmt_of(self, e):
+    p = e
+    while p is not None and not isinstance(p, ast.stmt):
+      p = getattr(p, '_parent', None)
+    return p
